@@ -11,17 +11,19 @@
    "low-order polynomial" of the property as far as loop iterations go.
 
    PARTIAL by nature: the theorems bound loop iterations of the model.  Wall-clock / CPU time of the implementation is
-   measured by the deadline oracle of harness/props/C15.py (19 shapes x sizes n,2n,4n x 8 operations), not proved.
+   measured by the deadline oracle of harness/props/C15.py (22 shapes x sizes n,2n,4n x 8 operations), not proved.
 
    No theorem is stated (none would say anything) for:
-   - hierarchy queries (subsumes, is_instance_of, is_primitive, descendants): in Schema.v the ancestor chain of every
+   - hierarchy queries that walk UP (subsumes, is_instance_of, is_primitive): in Schema.v the ancestor chain of every
      type is data (ti_anc), `isa` and `is_primitive` are membership tests on that finite list, hence total by
      construction; that the TypeSystem's recursive walks agree with these lists is C10's theorem, their cost on
-     type trees 60 levels deep is measured by the deadline oracle;
+     type trees 60 levels deep is measured by the deadline oracle.  The walk DOWN (Type.descendants, what select iterates
+     over) follows the mutable _children tables and does have a theorem: C15_subtype_walk_linear below (third wave);
    - readers and writers (apart from the list walk above), typecheck, select: in the models they are structural folds
      (map / fold_left / filter) over the document or over the id-sorted list returned by find_all_fs, so Coq's guard
      condition is their termination proof; there is nothing further to state. *)
 From Cassis Require Import Base Heap Schema Reach ReachProofs ReachSpec RefutedC15 ReachList ReachListProofs.
+From Cassis Require TS TSProofs Merge MergeProofs ReachTypes.
 Open Scope Z_scope.
 
 (* the worklist: never out of fuel with |heap|+1, whatever the graph *)
@@ -170,6 +172,61 @@ Example C15_premises_hold :
   ids_okb hEx 1 = true /\
   (exists w, find_all_fs false sEx cEx = Ok w /\ w_all w = [(1, 1%N); (2, 2%N); (3, 3%N)]) /\
   (exists w, find_all_fs true sEx cEx = Ok w /\ map snd (w_all w) = [1%N; 2%N; 4%N; 5%N; 3%N; 6%N]).
+Proof.
+  repeat split; try (vm_compute; reflexivity); eexists; split; vm_compute; reflexivity.
+Qed.
+
+(* ---- third wave: the walk over the subtypes of a type (Type.descendants: select, select_covered, create_feature) ----
+   It follows the _children tables, which create_type fills and merge_typesystems rewrites when it re-parents a type.  On
+   every type system satisfying the hierarchy invariant of C10 the walk returns with the fuel desc_fuel, hands out no type
+   twice and hence at most as many types as there are: linear work, whatever the depth of the tree ... *)
+Theorem C15_subtype_walk_linear : forall ts a, TS.WFh ts -> In a ts ->
+  exists l, TS.descendants (TS.desc_fuel ts) ts (TS.t_name a) = Some l /\ NoDup l /\ (List.length l <= List.length ts)%nat.
+Proof. exact ReachTypes.subtype_walk_linear. Qed.
+Print Assumptions C15_subtype_walk_linear.
+
+(* ... in particular on every type system merge_typesystems returns, whatever it re-parented on the way *)
+Theorem C15_merged_subtype_walk_linear : forall inputs ts a, MergeProofs.all_WFh inputs -> Merge.merge inputs = Ok ts -> In a ts ->
+  exists l, TS.descendants (TS.desc_fuel ts) ts (TS.t_name a) = Some l /\ NoDup l /\ (List.length l <= List.length ts)%nat.
+Proof. exact ReachTypes.merged_subtype_walk_linear. Qed.
+Print Assumptions C15_merged_subtype_walk_linear.
+
+(* the invariant is needed: with ONE stale entry per level (a re-parented type still listed under its old supertype, the
+   supertype attributes and everything else as declared) the walk from the root of a tree of depth k hands out
+   3 * 2^k - 2 types, the tree has 2k + 1; with the tables as declared it hands out 2k + 1 and the invariant holds *)
+Theorem C15_stale_child_walk_exponential :
+  map (fun k => ReachTypes.walked (ReachTypes.ladder true k) (ReachTypes.tn 0)) [1; 2; 3; 4; 5; 6; 7; 8; 9; 10]%nat
+  = map Some [4; 10; 22; 46; 94; 190; 382; 766; 1534; 3070]%nat.
+Proof. exact ReachTypes.stale_child_walk_exponential. Qed.
+Print Assumptions C15_stale_child_walk_exponential.
+
+Example C15_subtype_walk_examples :
+  forallb (fun k => TS.wfhb (ReachTypes.ladder false k)) [1; 2; 3; 4; 5; 6; 7; 8; 9; 10]%nat = true /\
+  map (fun k => ReachTypes.walked (ReachTypes.ladder false k) (ReachTypes.tn 0)) [1; 2; 3; 4; 5; 6; 7; 8; 9; 10]%nat
+  = map Some [3; 5; 7; 9; 11; 13; 15; 17; 19; 21]%nat.
+Proof. exact ReachTypes.declared_children_walk_linear. Qed.
+
+(* non-vacuity on collections inside collections (third wave): FSArrays 3 and 4 are reachable only through FSArrays, contain
+   each other, 4 contains itself and the outermost array 2 again, 2 holds 3 twice and a null; 2 is entered through a shared
+   feature, 3 also through an inline one.  The premises hold, every structure is returned once, the writer's walks return. *)
+Definition sNa : schema :=
+  [mkTi "t.H" ["t.H"; "uima.cas.TOP"]
+        [mkFd "items" "items" "uima.cas.FSArray" (Some "uima.cas.TOP") true; mkFd "own" "own" "uima.cas.FSArray" None false];
+   mkTi "uima.cas.FSArray" ["uima.cas.FSArray"; "uima.cas.ArrayBase"; "uima.cas.TOP"] [mkFd "elements" "elements" "uima.cas.TOP" None true];
+   mkTi "uima.cas.TOP" ["uima.cas.TOP"] []].
+Definition hNa : heap :=
+  [(1%N, mkFs "t.H" None [("items", VRef 2%N)]);
+   (2%N, mkFs "uima.cas.FSArray" None [("elements", VList [VRef 3%N; VNone; VRef 3%N])]);
+   (3%N, mkFs "uima.cas.FSArray" None [("elements", VList [VRef 4%N])]);
+   (4%N, mkFs "uima.cas.FSArray" None [("elements", VList [VRef 3%N; VRef 2%N; VNone; VRef 4%N])]);
+   (5%N, mkFs "t.H" None [("own", VRef 3%N)])].
+Definition cNa : cas := mkCas [mkView (mkSofa 1 1 "_InitialView" None None None None) [1%N; 5%N]] hNa 2.
+Example C15_nested_arrays_example :
+  wf_heapb false sNa hNa = true /\ wf_heapb true sNa hNa = true /\ seeds_liveb hNa (member_seeds cNa) = true /\
+  ids_okb hNa 2 = true /\
+  (exists w, find_all_fs false sNa cNa = Ok w /\ w_all w = [(2, 1%N); (3, 5%N); (4, 2%N); (5, 4%N); (6, 3%N)]) /\
+  (exists w, find_all_fs true sNa cNa = Ok w /\ w_all w = [(2, 1%N); (3, 5%N); (4, 2%N); (5, 3%N); (6, 4%N)]) /\
+  to_xmi_lists sNa cNa = Ok tt.
 Proof.
   repeat split; try (vm_compute; reflexivity); eexists; split; vm_compute; reflexivity.
 Qed.
